@@ -9,6 +9,8 @@ Compound values are immutable-by-convention Python objects that are rebuilt on u
 Containers are bounded: a Vec is (slots, n) with n possibly symbolic; a map/set is a
 list of (present, key[, value]) slots. `ite` merges two values of the same shape.
 """
+import math
+
 import z3
 
 CAP = 6  # default slot bound for containers that become symbolic (per-run override)
@@ -423,11 +425,15 @@ def ite(c, a, b):
             return a
         return S(z3.If(c, a.z(), b.z()))
     if ta is F:
-        if a.conc() and b.conc() and a.v == b.v:
-            return a
+        if a.conc() and b.conc() and a.v == b.v and math.copysign(1.0, a.v) == math.copysign(1.0, b.v):
+            return a            # same value AND same sign of zero (0.0 == -0.0 but they print and divide differently)
         return F(z3.If(c, a.z(), b.z()))
     if ta is Unit:
         return a
+    if ta is St and a.name == "JsonText" and isinstance(b, S) and b.conc() and b.v == "":
+        b = St("JsonText", {"v": none(), "empty": True})       # an empty String buffer that a file is read into
+    if ta is S and isinstance(b, St) and b.name == "JsonText" and a.conc() and a.v == "":
+        return ite(c, St("JsonText", {"v": none(), "empty": True}), b)
     if ta is St:
         if not isinstance(b, St) or a.name != b.name:
             raise Unsupported("ite: struct %r vs %r" % (a, b))
